@@ -104,6 +104,11 @@ def check_blend(P, R):
             on_n = any(a.endswith(".n") for a in cc.attrs)
             small_true = isinstance(cond, ast.Compare) and isinstance(cond.ops[0], (ast.Lt, ast.LtE))
             R.check(on_n and small_true, "GUARD.no-evidence", f.key, f"{src(t)} = np.where({src(cond)[:50]}, ...)", "no-evidence test on the responsibility mass", "the fallback of the adapted parameter is not selected by `n < threshold`", st.lineno)
+            # ... against the configured threshold (the same one that floors the counts in the blend), not a constant of its own
+            thr_params = [p_ for p_ in fa.params if "threshold" in p_]
+            if on_n and small_true and thr_params and isinstance(cond, ast.Compare):
+                tc_ = cone(dua, cond.comparators[0], cst, interproc=False)
+                R.check(bool(set(thr_params) & tc_.params), "GUARD.no-evidence-threshold", f.key, f"{src(cond)[:60]}", f"compared with {thr_params[0]}", f"the no-evidence test compares the responsibility mass with `{src(cond.comparators[0])}` instead of the configured {thr_params[0]}: components between the two thresholds are blended with a floored count instead of keeping the prior (or the reverse)", st.lineno)
             prior_arm, blend = v.args[1], v.args[2]
             pattrs = direct_attrs(dua, prior_arm, cst)
             if mpa is not None:
